@@ -535,13 +535,29 @@ pub fn run_case(ctx: &Ctx, prof: &Profile, case: u64, verbose: bool) -> CaseOut 
     out
 }
 
+static PANICS: Mutex<Vec<String>> = Mutex::new(Vec::new());
+
 pub fn install_quiet_panic_hook() {
     static SHOWN: AtomicU64 = AtomicU64::new(0);
     std::panic::set_hook(Box::new(|info| {
         if SHOWN.fetch_add(1, Ordering::Relaxed) < 3 {
             eprintln!("(panic in code under test: {})", info);
         }
+        // panics of server tasks (tokio catches them) are only visible here
+        let on_server_thread = std::thread::current().name().map(|n| n.starts_with("tokio") || n.starts_with("mcv-srv")).unwrap_or(false);
+        if on_server_thread {
+            if let Ok(mut p) = PANICS.lock() {
+                if p.len() < 100 {
+                    p.push(format!("{}", info));
+                }
+            }
+        }
     }));
+}
+
+/// panics that happened on server threads since the last call
+pub fn take_server_panics() -> Vec<String> {
+    PANICS.lock().map(|mut p| std::mem::take(&mut *p)).unwrap_or_default()
 }
 
 pub const RULE: &str = "a case is one generated command history (with clock script, key pool, store stack, sweep mode) run at L1 against M-KV; non-trivial when it contains >=1 successful mutation and the property's target situation occurred (C01: a get met a live item; C02: a CAS mutation met an existing item; C05: a command met an item within 1 s of / past its expiry; C06/C07: the target opcodes met >=2 different key states; C08: delete/flush with >=2 items present; C11: always); distinct by the hash of its (opcode, key, key-state, status) sequence";
